@@ -30,6 +30,7 @@ type Call struct {
 	OutNorm   uint64 `json:"out_norm"`
 	Err       string `json:"err,omitempty"`
 	Injected  bool   `json:"injected,omitempty"`
+	LostReply bool   `json:"lost_reply,omitempty"` // injected after the real backend had worked on the state
 }
 
 // Hand is everything recorded about one CreateGame and what followed.
@@ -50,6 +51,10 @@ type Wrapper struct {
 	DeckFn func(opts *pokerface.GameOptions, gs *pokerface.GameState) []string
 	// FaultFn decides whether call number ord (global ordinal) of the given kind fails.
 	FaultFn func(ord int, kind string, gs *pokerface.GameState) bool
+	// FaultAfter is consulted when FaultFn decided that a call fails: true = the call is
+	// delegated to the real backend first and only its reply is lost (the caller still gets
+	// the injected error); false = the call fails before it reaches the real backend.
+	FaultAfter func(ord int, kind string) bool
 	// OnCall is invoked after every call (outside the lock), for event pumps.
 	OnCall func(c Call)
 }
@@ -183,6 +188,11 @@ func (w *Wrapper) do(kind string, arg int64, gs *pokerface.GameState, f func() (
 	}
 	if w.FaultFn != nil && w.FaultFn(c.Ord, kind, gs) {
 		c.Err, c.Injected = ErrInjected.Error(), true
+		if w.FaultAfter != nil && w.FaultAfter(c.Ord, kind) {
+			// the real backend works on the state it was handed; its reply never arrives
+			f()
+			c.LostReply = true
+		}
 		w.All = append(w.All, c)
 		if h := w.cur(); h != nil {
 			h.Calls = append(h.Calls, c)
